@@ -750,7 +750,12 @@ impl Ctx {
                     }
                 }
                 if c.top_release && self.m.len() < c.max_actors {
-                    if self.rt[i].released_efd.is_some() || self.rt[i].released.is_some() {
+                    // (not while another inserted source watches the very same descriptor: that
+                    // would be a duplicate registration, which is AdaptDup / InsertDup's business)
+                    let same_fd_in_use = self.rt[i].released_efd.as_ref().map(|e| e.as_raw_fd()).map(|fd| {
+                        self.m.iter().enumerate().any(|(k, a)| a.alive && k != i && self.rt[k].efd.as_ref().map(|e| e.as_raw_fd()) == Some(fd))
+                    }).unwrap_or(false);
+                    if (self.rt[i].released_efd.is_some() && !same_fd_in_use) || self.rt[i].released.is_some() {
                         v.push(Op::ReinsertFd(i));
                     }
                     if self.rt[i].released.is_some() {
